@@ -82,7 +82,7 @@ func c01Selector(limit selector.RecursionLimit, stop ipld.Link) ipld.Node {
 // requested, each once; the hook is called for every block of the segment (local
 // or not) newest to oldest, after the walk; a failed walk calls no hook.
 func VerifC01_RealTraversal() {
-	const n = 3
+	n := 3 + verif_Tier() // chain length: 3 (quick), 4 (thorough)
 	pub := &vStore{m: map[string][]byte{}}
 	chain := c01Chain(pub, n)
 	local := verif_Choose("localMask", 0, 1<<n-1) // which blocks the subscriber already has
